@@ -44,6 +44,12 @@ type concParams struct {
 	// and this budget in the quick / thorough tier, in addition to the plain bounds.
 	WQ int `json:"wq,omitempty"`
 	WT int `json:"wt,omitempty"`
+	// SQ/ST: additionally search this driver with scheduling points before every statement of
+	// package leveldb (binary built with vrewrite -stmt leveldb), at this bound (quick /
+	// thorough); Stmt marks the variant that runs at that granularity.
+	SQ   int  `json:"sq,omitempty"`
+	ST   int  `json:"st,omitempty"`
+	Stmt bool `json:"stmt,omitempty"`
 }
 
 // linInput / linOutput are the porcupine operation payloads.
@@ -202,6 +208,8 @@ type reader interface {
 // runConc executes the driver once under the given choice prefix.
 func runConc(p *concParams, prefix []int, extra func(w *harness.World, cr *concRun)) (*vsched.Result, *concRun) {
 	cr := &concRun{Faulted: len(p.Faults) > 0}
+	vsched.StmtEnabled = p.Stmt
+	defer func() { vsched.StmtEnabled = true }()
 	vsched.WantWhere = p.Where
 	defer func() { vsched.WantWhere = false }()
 	var clock int64
